@@ -1,17 +1,18 @@
 #!/bin/sh
-# tools/refactor_matrix.sh [batch1|batch2]  - run all 20 checks on every stored behaviour-preserving refactoring (selftest/refactors/<batch>/*.diff)
-# and print one line per refactoring: empty = silent, otherwise the checks that exit 1 (V, with rules) or 2 (AE); PATCH-FAILED when a later
-# fix: commit changed the code the refactoring edits.  Not a registered check (regression instrument, see DESIGN.md 6.3).
-B="${1:-batch2}"
-for f in /verif/selftest/refactors/$B/*.diff; do
-  L=$(basename "$f" .diff)
+# tools/refactor_matrix.sh [batch1|batch2]  - run all 20 checks on every stored behaviour-preserving refactoring (selftest/refactors/<batch>/*.diff),
+# ten at a time, and print one line per refactoring: empty = silent, otherwise the checks that exit 1 (V, with rules) or 2 (AE); PATCH-FAILED when a
+# later fix: commit changed the code the refactoring edits.  Not a registered check (regression instrument, see DESIGN.md 6.3).
+if [ "$1" = "--one" ]; then
+  f="$2"; L=$(basename "$f" .diff)
   T=$(mktemp -d /tmp/rm.XXXXXX); mkdir -p "$T/repo" && cp -r /repo/src "$T/repo/src"
-  if ! ( cd "$T/repo" && patch -p1 -s --no-backup-if-mismatch < "$f" ) >/dev/null 2>&1; then echo "$L: PATCH-FAILED"; rm -rf "$T"; continue; fi
+  if ! ( cd "$T/repo" && patch -p1 -s --no-backup-if-mismatch < "$f" ) >/dev/null 2>&1; then echo "$L: PATCH-FAILED"; rm -rf "$T"; exit 0; fi
   OUT=""
   for i in 01 02 03 04 05 06 07 08 09 10 11 12 13 14 15 16 17 18 19 20; do
     R=$(VERIF_NO_EVIDENCE=1 /verif/check C$i --tier quick --repo "$T/repo" 2>/dev/null); rc=$?
     [ $rc -eq 1 ] && OUT="$OUT C$i=V($(echo "$R" | grep -o '^  R[0-9.]*' | sort -u | tr -d ' ' | tr '\n' ',' | sed 's/,$//'))"
     [ $rc -eq 2 ] && OUT="$OUT C$i=AE"
   done
-  echo "$L:$OUT"; rm -rf "$T"
-done
+  echo "$L:$OUT"; rm -rf "$T"; exit 0
+fi
+B="${1:-batch2}"
+ls /verif/selftest/refactors/$B/*.diff | xargs -P 10 -n 1 "$0" --one | sort
